@@ -54,8 +54,11 @@ def eval_case(case):
   model, pose = case['model'], case['pose']
   xml = render.render(model)
   q, qd = qvec(model, pose) if 'q' not in case else (np.array(case['q']), np.array(case['qd']))
-  sys = mjcf.loads(xml)
-  x, xd = jax.jit(kinematics.forward)(sys, jp.asarray(q), jp.asarray(qd))
+  try:
+    sys = mjcf.loads(xml)
+    x, xd = jax.jit(kinematics.forward)(sys, jp.asarray(q), jp.asarray(qd))
+  except Exception as e:  # the code under test failed: a verdict, not a machinery error
+    return {'xml': xml, 'q': q.tolist(), 'qd': qd.tolist(), 'brax_error': f'{type(e).__name__}: {str(e)[:300]}'}
   mj = mujoco.MjModel.from_xml_string(xml)
   d = mujoco.MjData(mj)
   d.qpos[:] = q
@@ -91,6 +94,10 @@ def in_vel_class(model):
 
 
 def judge(ctx, case, r, spec=None):
+  if 'brax_error' in r:
+    ctx.violation(f'kinematics.forward raised: {r["brax_error"]}', {k: r[k] for k in ('xml', 'q', 'qd')},
+                  {'call': 'kinematics.forward', 'predicate': 'raised'})
+    return
   model = case['model']
   n = len(model['links'])
   bx, mj = r['brax'], r['mj']
@@ -158,7 +165,7 @@ def run(ctx):
     for budget in (3, 2, 1):   # a 32-bit overflow is a loud TLC error: retry with a smaller denominator budget
       cfg = os.path.join(tlc.WORK, f'{label}.cfg')
       tlc.write_cfg(cfg, constants={'Class': f'"{cls}"', 'MaxLinks': maxl, 'NModels': nm, 'NPoses': npz,
-                                    'Budget': budget}, invariants=['ModelWellFormed', 'UnitRotations'])
+                                    'Budget': budget, 'SeedBase': core.seed_base(ctx, 1)}, invariants=['ModelWellFormed', 'UnitRotations'])
       try:
         res = tlc.run('Kinematics', cfg, name=label, dump=dump, seed=ctx.seed + 11, expect_ok=True, coverage=True)
         break
@@ -176,7 +183,7 @@ def run(ctx):
     ctx.traces += 1
     ctx.case(key=(r['xml'], tuple(r['q']), tuple(r['qd'])), nontrivial=nontrivial(case['model']),
              sample={'xml': r['xml'], 'q': r['q'], 'qd': r['qd'], 'expected_x': case['spec']['x']}
-             if len(ctx.samples) < 3 and len(case['model']['links']) > 1 else None)
+             if len(ctx.samples) < 3 and len(case['model']['links']) > 1 and 'brax_error' not in r else None)
     judge(ctx, case, r, spec=case['spec'])
   ctx.extra['exact_cases'] = len(cases)
   # ---- relational extension: bigger forests, generic float poses, brax vs MuJoCo (specification supplies the models)
@@ -192,7 +199,7 @@ def relational_cases(ctx, label, maxl, nm, cls='any', seed_off=12):
   """ModelSpace models (no exact computation) with seeded float poses."""
   cfg = os.path.join(tlc.WORK, f'{label}.cfg')
   tlc.write_cfg(cfg, init='ModelsOnlyInit', next_='ModelsOnlyNext',
-                constants={'Class': f'"{cls}"', 'MaxLinks': maxl, 'NModels': nm})
+                constants={'Class': f'"{cls}"', 'MaxLinks': maxl, 'NModels': nm, 'SeedBase': core.seed_base(ctx, seed_off)})
   dump = os.path.join(tlc.WORK, label)
   res = tlc.run('ModelSpaceGen', cfg, name=label, dump=dump, seed=ctx.seed + seed_off, expect_ok=True)
   ctx.add_tlc(res, label)
